@@ -849,3 +849,47 @@ twin('C15', 'c15-twin-constant-added', LOOP,
      "# Coroutine Return Type\nRT = TypeVar('RT')",
      "# Coroutine Return Type\nRT = TypeVar('RT')\n_DEFAULT_START = 0\n_NAMES = ('time', 'turn')",
      'module level constants are fine')
+
+# ------------------------------------------------------------------------- C02
+mutant('C02', 'c02-weakset-listeners', TRACKED,
+       "        self._listeners = WeakKeyDictionary()  \\\n            # type: WeakKeyDictionary[AsyncComparison, None]",
+       "        self._listeners = set()",
+       'T', 'the original defect F7 (address ordered listeners)')
+mutant('C02', 'c02-awake-all-set', NOTIF,
+       "        awoken = self._waiting.copy()\n        self._waiting.clear()\n        for waiter, interrupt in awoken:",
+       "        awoken = set(self._waiting)\n        self._waiting.clear()\n        for waiter, interrupt in awoken:",
+       'T', 'waiters woken in hash order')
+mutant('C02', 'c02-pending-appendleft', LOOP,
+       "            self._pending.append(Activation(target, signal))",
+       "            self._pending.appendleft(Activation(target, signal))",
+       'F', 'LIFO turn order')
+mutant('C02', 'c02-pop-right', LOOP,
+       "                activation = pending.popleft()", "                activation = pending.pop()",
+       'F _run_events', 'LIFO turn order')
+mutant('C02', 'c02-random-tiebreak', LOOP,
+       "import collections\nfrom typing import Coroutine",
+       "import collections\nimport random\nfrom typing import Coroutine",
+       'T import', 'random imported into the kernel')
+mutant('C02', 'c02-assert-with-effect', LOOP,
+       "        assert (\n            delay is None or at is None\n        ), \"schedule date must be either absolute or relative\"",
+       "        assert (\n            self._pending.append(None) is None\n        ), \"schedule date must be either absolute or relative\"",
+       'D', 'an assert that mutates state: -O changes behaviour')
+mutant('C02', 'c02-debug-behaviour', LOCKS,
+       "    if __debug__:\n        def __enter__(self):",
+       "    if __debug__:\n        _checked = True\n\n        def __enter__(self):",
+       'D debug-block', 'state defined only in debug mode')
+mutant('C02', 'c02-sd-len', WAITQ,
+       "class SDWaitQueue(Generic[K, V]):\n    __slots__ = ('_data',)\n\n    def __init__(self):\n        self._data = SortedDict()  # type: SortedDict[K, deque[V]]\n\n    def __bool__(self):\n        return bool(self._data)",
+       "class SDWaitQueue(Generic[K, V]):\n    __slots__ = ('_data',)\n\n    def __init__(self):\n        self._data = SortedDict()  # type: SortedDict[K, deque[V]]\n\n    def __bool__(self):\n        return len(self._data) > 1",
+       'S same-truth', 'the SD backend stops one event early')
+mutant('C02', 'c02-selector-lenient', WAITQ,
+       "else:\n    raise EnvironmentError(\n        'Invalid %r: %r' % (QUEUETYPE_KEY, os.environ.get(QUEUETYPE_KEY))\n    )",
+       "else:\n    WaitQueue = HQWaitQueue",
+       'S selector', 'unknown selector values silently accepted')
+twin('C02', 'c02-twin-awake-all-reversed', NOTIF,
+     "        for waiter, interrupt in awoken:\n            __USIM_STATE__.loop.schedule(waiter, signal=interrupt)\n        return awoken",
+     "        for waiter, interrupt in reversed(awoken):\n            __USIM_STATE__.loop.schedule(waiter, signal=interrupt)\n        return awoken",
+     'deterministic but different wake order: violates none of the statements')
+twin('C02', 'c02-twin-list-copy', NOTIF,
+     "        awoken = self._waiting.copy()", "        awoken = list(self._waiting)",
+     'copy spelled differently')
